@@ -136,6 +136,10 @@ def obj_cases(draw, ctx=None, obj_type=None, min_slices=1, force=None, max_side=
         mask["sigma"] = draw(st.sampled_from([0.5, 1.0, 2.0]))
     if mode == "const":
         mask["value"] = draw(st.sampled_from([0.5, 0.25, 0.999]) | st.floats(0.0, 1.0, allow_nan=False))
+    if S > 1 and mode in ("frac", "smooth", "binary") and draw(st.integers(0, 2)) == 0:
+        # the mask setter also accepts one mask per slice (seeded change C10-13: slices tied BEFORE a slice-dependent
+        # mask is applied are no longer identical)
+        mask["per_slice"] = True
     case["mask"] = mask
     if mode == "none":
         # no mask exists: the property getter is only meaningful when nothing consults the mask
@@ -557,7 +561,7 @@ def _obj_judge(ctx, case, spec, facts, o1t, o2t, who=""):
 def _check_obj(ctx, case):
     f = _obj_facts(case)
     cons, mask = f["cons"], f["mask"]
-    classes = ["obj:" + case["obj_type"], "S>1" if case["S"] > 1 else "S=1", "route:" + case["route"], "mask:" + case["mask"]["mode"]]
+    classes = ["obj:" + case["obj_type"], "S>1" if case["S"] > 1 else "S=1", "route:" + case["route"], "mask:" + case["mask"]["mode"] + ("/per-slice" if case["mask"].get("per_slice") else "")]
     for k in ("positivity", "fix_potential_baseline", "identical_slices", "apply_fov_mask"):
         if k in cons:
             classes.append("%s=%s" % (k, cons[k]))
